@@ -1,5 +1,7 @@
 #[cfg(test)]
 mod tests;
+#[cfg(feature = "verif")]
+pub mod verif;
 
 use std::{
     future::Future,
